@@ -72,7 +72,7 @@ RULE = ('union of full Cartesian products (blocks) over {eps, PA, centre fractio
         'value) x EllipseGeometry.sma (equal / above / below the start, on / off the growth grid, beyond maxsma, below minsma) '
         'x step x linear x range {minsma 5, 0} x {maxsma 30, None}, the block "growth-via-geometry" gives the growth mode as '
         'EllipseGeometry(linear_growth=) with linear=None; a lattice point whose start sma (sma0 if given, else '
-        'geometry.sma) is not strictly between minsma and maxsma or not well-sampled violates the documented precondition '
+        'geometry.sma) is not strictly between minsma and maxsma, below 4 px or with its annuli not inside the frame violates the documented precondition '
         'of sma0 and is counted as skipped, not run; on every fit the returned sma list must be one growth sequence through '
         'the start (clauses sma-start, sma-growth), whatever the geometry.sma; to_polar: all 81 integer '
         'points of a 9x9 window x 24 geometries x 4 call forms, non-trivial when the point is not the centre')
@@ -285,14 +285,15 @@ def parse_range(case):
 
 def admissible(case, t):
     """Documented precondition on the start (input-only): sma0 'must not be the minimum or maximum semimajor axis
-    length, but something in between' and its isophote must have 'a clearly defined geometry' (here: well-sampled).
+    length, but something in between' and its isophote must have 'a clearly defined geometry' (here: inside_frame(); the
+    minor-axis condition of well_sampled() is not asked of the start: the eps 0.8 galaxies are started at sma 10, b = 2).
     Returns None or the reason the lattice point is not run."""
     s = start_sma(case)
     mn, mx = parse_range(case) or (0.0, None)
     if not (s > mn and (mx is None or s < mx)):
         return 'start sma not strictly between minsma and maxsma (documented precondition of sma0)'
-    if not well_sampled(s, case, t):
-        return 'start sma outside the well-sampled range of the frame (no clearly defined geometry to start from)'
+    if not inside_frame(s, case, t):
+        return 'start sma below 4 px or its annuli not inside the frame (no clearly defined geometry to start from)'
     return None
 
 
@@ -412,13 +413,19 @@ def outer_sma(sma, case):
     return (sma + kw['step']) + kw['step'] / 2.0
 
 
-def well_sampled(sma, case, t):
-    if sma < SMA_MIN[case['law']] or sma * (1.0 - t['eps']) < B_MIN:
+def inside_frame(sma, case, t):
+    """The isophote at ``sma`` lies on the frame with its integration and gradient annuli (EDGE px to spare) and is
+    not in the innermost pixels (sma >= SMA_MIN)."""
+    if sma < SMA_MIN[case['law']]:
         return False
     wx, wy = half_widths(outer_sma(sma, case), t['eps'], t['pa'])
     ny, nx = frame_of(case)['shape']
     return (t['x0'] - wx >= EDGE and t['x0'] + wx <= nx - 1 - EDGE
             and t['y0'] - wy >= EDGE and t['y0'] + wy <= ny - 1 - EDGE)
+
+
+def well_sampled(sma, case, t):
+    return sma * (1.0 - t['eps']) >= B_MIN and inside_frame(sma, case, t)
 
 
 # --------------------------------------------------------------------------
@@ -943,7 +950,7 @@ def describe(tier, seed):
                                   'centre': 'x+1.0, y-0.7', 'eps': 'eps-0.1 only'},
                          'to_polar': {'centres': TP_CENTRES, 'pa': TP_PA, 'window': '9x9 integer points',
                                       'forms': TP_FORMS + ['integer-dtype array vs float array']}},
-            'bound': {'admissible start': 'minsma < start < maxsma and well_sampled(start); start = sma0 keyword if given, else '
+            'bound': {'admissible start': 'minsma < start < maxsma, start >= 4 px and its annuli >= 2 px inside the frame; start = sma0 keyword if given, else '
                                           'geometry.sma',
                       'sma-growth / sma-start tolerance (relative)': SMA_RTOL,
                       'well_sampled': f'sma >= {SMA_MIN}, sma*(1-eps) >= {B_MIN}, bounding box of the outer annulus edge '
